@@ -1344,7 +1344,16 @@ func verifyBlindedMessages(proofs cashu.Proofs, blindedMessages cashu.BlindedMes
 		return err
 	}
 
-	signaturesRequired := 1
+	// a P2PK lock needs one signature when no threshold is set. A hash lock
+	// needs signatures only when a threshold is set (as for its inputs): without
+	// one it may list no keys at all and nobody could sign the outputs
+	defaultSignaturesRequired := func(kind nut10.SecretKind) int {
+		if kind == nut10.HTLC {
+			return 0
+		}
+		return 1
+	}
+	signaturesRequired := defaultSignaturesRequired(secret.Kind)
 	p2pkTags, err := nut11.ParseP2PKTags(secret.Data.Tags)
 	if err != nil {
 		return err
@@ -1364,7 +1373,7 @@ func verifyBlindedMessages(proofs cashu.Proofs, blindedMessages cashu.BlindedMes
 			return nut11.AllSigAllFlagsErr
 		}
 
-		currentSignaturesRequired := 1
+		currentSignaturesRequired := defaultSignaturesRequired(secret.Kind)
 		p2pkTags, err := nut11.ParseP2PKTags(secret.Data.Tags)
 		if err != nil {
 			return err
